@@ -67,6 +67,10 @@ SOL = {
     'D.sol': 'pragma solidity ^0.8.0;\ncontract D {\n    function f(\n        uint256[] memory a,\n        string memory b,\n        bytes memory c\n    ) public pure returns (uint256) {\n'
              '        return a.length;\n    }\n    function g(\n        uint8[] memory p,\n        uint8[] memory q\n    ) external pure returns (uint256) {\n        return p.length + q.length;\n    }\n}\n',
 }
+# every source is padded with line feeds to one common length: files of exactly the same size and different line layouts
+# meet at the same listing index of different directories (whatever is remembered per (file number, size) must not leak)
+_L = max(len(v.encode('utf-8')) for v in SOL.values())
+SOL = {k: v + '\n' * (_L - len(v.encode('utf-8'))) for k, v in SOL.items()}
 # {d1}..{d5} are directory ROLES: every tree gives them different names (directory names are not part of a finding - only
 # the base name of the file is - so the set of findings is the same while the listing order of the directories differs;
 # on ext4 the listing order depends on the names, not on the creation order).  {d4}/A.sol and {d5}/A.sol are identical
